@@ -2,10 +2,14 @@
 //! (a) engine C: SortVoting::winners over complete weight grids; (b) engine A: tracker histories with
 //! crossing objects, association re-derived from the observable store (see c02b in trk.rs).
 
+use super::assoc::*;
 use super::hung::*;
+use super::trk::*;
 use crate::common::*;
+use crate::sched::{run_jobs, Guarded};
 use serde_json::json;
 use std::sync::atomic::{AtomicU64, Ordering};
+use std::sync::Arc;
 
 fn weight_menu(thr: f32, full: bool) -> Vec<Option<f32>> {
     let d = if thr < 1.0 { 0.01 } else { 0.015625 };
@@ -155,4 +159,135 @@ pub fn run_a(rep: &Report, tier: Tier) {
     rep.add(e, e, e, e);
     rep.distinct_count(nontrivial.load(Ordering::Relaxed));
     rep.extra("part_a_weight_matrices", json!(e));
+}
+
+/// detections of one step of a relative-motion word
+fn frame(word: &[usize], step: usize, family: usize) -> Vec<Det> {
+    if family == 3 {
+        // a single object that jumps by 16 / 24 / 30 px per step (bounding-circle reach of two 10x20
+        // boxes: 22.4 px), far away from a second, static one
+        let mut x = 0.0f32;
+        for d in &word[..step] {
+            x += [16.0f32, 24.0, 30.0][*d];
+        }
+        return vec![Det::ltwh(x, 0.0, 10.0, 20.0), Det::ltwh(-500.0, 0.0, 10.0, 20.0).conf(0.7)];
+    }
+    let mut gap = 18.0f32;
+    for d in &word[..step] {
+        gap += [-6.0f32, 0.0, 6.0][*d];
+    }
+    let xa = 1.0 * step as f32;
+    let a = Det::ltwh(xa, 0.0, 10.0, 20.0);
+    let b = Det::ltwh(xa + gap, 1.0, 10.0, 20.0).conf(0.8);
+    let mut v = if step % 2 == 0 { vec![a, b] } else { vec![b, a] };
+    match family {
+        1 => v.push(Det::ltwh(9.0, 4.0, 6.0, 10.0).conf(0.9)), // a small static object between them
+        2 => v.insert(0, Det::ltwh(xa + gap * 0.5, 0.5, 10.0, 20.0).conf(0.6).rot(0.2)), // a rotated one in the middle
+        _ => {}
+    }
+    v
+}
+
+pub fn run_b(rep: &Report, tier: Tier) {
+    let len = tier.pick(5usize, 6usize);
+    let words: Vec<Vec<usize>> = super::hist::words(3, len);
+    let mut cfgs: Vec<TrkCfg> = vec![];
+    for kind in [Kind::Sort, Kind::VisualSort, Kind::BatchSort] {
+        for pos in [Pos::Iou(0.3), Pos::Maha] {
+            for shards in [1usize, 2] {
+                if kind != Kind::Sort && (shards == 2 || tier == Tier::Quick && pos == Pos::Maha) {
+                    continue;
+                }
+                let mut c = TrkCfg::new(kind);
+                c.pos = pos;
+                c.shards = shards;
+                c.max_idle = 1;
+                cfgs.push(c);
+            }
+        }
+    }
+    // large Kalman weights: the chi-square gate becomes wider than the bounding-circle reach
+    for shards in [1usize, 2] {
+        let mut c = TrkCfg::new(Kind::Sort);
+        c.pos = Pos::Maha;
+        c.shards = shards;
+        c.max_idle = 1;
+        c.kalman_w = (0.5, 0.1);
+        cfgs.push(c);
+    }
+    let calls = AtomicU64::new(0);
+    let undecided = AtomicU64::new(0);
+    let greedy_differs = AtomicU64::new(0);
+    let continued = AtomicU64::new(0);
+    for cfg in cfgs {
+        for family in 0..4usize {
+            if rep.out_of_time() {
+                rep.cap_hit("wall budget reached in the end-to-end association part");
+                return;
+            }
+            let chunk = 8usize;
+            let nchunks = (words.len() + chunk - 1) / chunk;
+            let ws = Arc::new(words.clone());
+            let (ws2, cfg2) = (ws.clone(), cfg.clone());
+            let outs = run_jobs(nchunks, move |ci| {
+                let pc = PosCfg::of(&cfg2);
+                let mut viol: Vec<(Vec<usize>, usize, String, String)> = vec![];
+                let mut stats = (0u64, 0u64, 0u64, 0u64);
+                for w in &ws2[ci * chunk..((ci + 1) * chunk).min(ws2.len())] {
+                    let mut trk = Guarded::new(AnyTrk::new(&cfg2));
+                    for step in 0..=w.len() {
+                        let dets = frame(w, step, family);
+                        let pre = trk.all_stored(false, cfg2.shards);
+                        let recs = trk.predict(0, &dets);
+                        stats.0 += 1;
+                        if recs.len() != dets.len() {
+                            viol.push((w.clone(), step, "association/record-count".into(), format!("{} records", recs.len())));
+                            break;
+                        }
+                        let now = step + 1;
+                        let v = judge_positional(&pc, 0, now, &dets.iter().collect::<Vec<_>>(), &recs.iter().collect::<Vec<_>>(), &pre.iter().collect::<Vec<_>>());
+                        if v.undecided {
+                            stats.1 += 1;
+                        }
+                        if v.greedy_differs {
+                            stats.2 += 1;
+                        }
+                        stats.3 += recs.iter().filter(|r| pre.iter().any(|t| t.id == r.id)).count() as u64;
+                        if let Some((key, what)) = v.violation {
+                            viol.push((w.clone(), step, key, what));
+                            break;
+                        }
+                        // a detection that continues nothing starts a track with a fresh id
+                        for r in &recs {
+                            if !pre.iter().any(|t| t.id == r.id) && r.length != 1 {
+                                viol.push((w.clone(), step, "association/new-track-length".into(), format!("{r:?}")));
+                            }
+                        }
+                    }
+                }
+                (viol, stats)
+            });
+            for o in outs {
+                match o {
+                    Ok((viol, st)) => {
+                        calls.fetch_add(st.0, Ordering::Relaxed);
+                        undecided.fetch_add(st.1, Ordering::Relaxed);
+                        greedy_differs.fetch_add(st.2, Ordering::Relaxed);
+                        continued.fetch_add(st.3, Ordering::Relaxed);
+                        for (w, step, key, what) in viol {
+                            rep.violation(Violation { key, what, replay: json!({"part":"b","config":cfg.json(),"family":family,"relative_motion_word":w,"failing_step":step,"frames":(0..=step).map(|k| frame(&w, k, family).iter().map(|d| d.json()).collect::<Vec<_>>()).collect::<Vec<_>>()}) });
+                        }
+                    }
+                    Err(e) => rep.violation(Violation { key: format!("{}/panic-or-deadlock", cfg.kind.name()), what: e.chars().take(300).collect(), replay: json!({"part":"b","config":cfg.json(),"family":family}) }),
+                }
+            }
+        }
+    }
+    let c = calls.load(Ordering::Relaxed);
+    rep.add(c, c, c, 0);
+    rep.distinct_count(c);
+    rep.extra("part_b_calls", json!(c));
+    rep.extra("part_b_undecided_by_margin", json!(undecided.load(Ordering::Relaxed)));
+    rep.extra("part_b_calls_where_rowwise_greedy_differs_from_optimum", json!(greedy_differs.load(Ordering::Relaxed)));
+    rep.extra("part_b_continuations", json!(continued.load(Ordering::Relaxed)));
 }
